@@ -155,6 +155,12 @@ def check(ctx):
                 det.append((sorted(map(str, v_ok)), sorted(v_err, key=str)))
                 if v_ok != {("const", 1)} or 1 in v_err: good = False
         ctx.ob("R08.7", f"{kk}|answers-its-cas", good, f"{bb.f['file']}:{bb.f['line']}", f"answer on the CAS success edge / constants on the failure side: {det}; required: true exactly when the CAS succeeded")
+    # ------------------------------------------------------------------ R08.8 a reserved send is delivered to a concurrently polling consumer (poll / waker protocol, shared with C04)
+    # ('a slot for which try_send_reserved answered true is delivered': the consumer that found the channel empty and is about to park learns of it through the
+    #  registration's self-wake, exactly as for a plain send)
+    import importlib as _il
+    _il.import_module("props.C04").check_poll_protocol(util.PrefixedCtx(ctx, "R08.8"))
+    ctx.floor("R08.8", 8)
     # ------------------------------------------------------------------ R08.2 ring ref<->index inverses
     for adt in (R.AM, R.FSM):
         k1, k2 = f"{adt}::slot_index_from_slot_ref", f"{adt}::slot_ref_from_slot_index"
